@@ -1,9 +1,9 @@
-from textwrap import indent
 
 from pydbml._classes.enum import EnumItem
 from pydbml.classes import Enum
 from pydbml.renderer.sql.default.renderer import DefaultSQLRenderer
 from pydbml.renderer.sql.default.utils import comment_to_sql, get_full_name_for_sql
+from pydbml.tools import indent_lines as indent
 
 
 @DefaultSQLRenderer.renderer_for(Enum)
